@@ -202,4 +202,35 @@ theorem finding_value_prefix_unknown (st : NsState) (v : Str)
   simp only [savePrefix, hk]
   split <;> rfl
 
+/-- `__save_prefix` keeps the table invariant: it is the identity or one `get_nsprefix` call -/
+theorem inv_savePrefix (st : NsState) (v : Str) (h : Inv st) : Inv (savePrefix st v) := by
+  simp only [savePrefix]
+  split
+  · exact h
+  · split
+    · exact h
+    · exact inv_step st _ h
+
+/-- **C14 (prefix inside an attribute value, for all histories before and after)**: whatever the process did before
+    (`pre`: any history of namespace registrations from the initial table - other documents, loads, foreign namespaces)
+    and whatever it does afterwards (`post`), once an attribute whose datatype carries a prefixed value (formula,
+    namespaced token, script language / event name - every attribute the converters route through `__save_prefix`) has
+    been given a value that starts with a prefix `nsdict` knows, every root written later declares that prefix and
+    binds it to the namespace `nsdict` associates with it. -/
+theorem value_prefix_declared_all_histories (pre post : List Str) (p rest ns : Str) (hp : 58 ∉ p)
+    (hk : knownNs (run initial pre).nsdict p = some ns) :
+    lookupNs (run (savePrefix (run initial pre) (p ++ 58 :: rest)) post).seen ns = some p := by
+  have hinv := inv_reachable pre
+  have hmem := value_prefix_declared (run initial pre) hinv p rest ns hp hk
+  have hinv2 := inv_savePrefix (run initial pre) (p ++ 58 :: rest) hinv
+  exact binding_persists _ post ns p (lookupNs_of_mem_nodup hinv2.seenKeys hmem)
+
+/-- ... and the attribute's own namespace, registered by `setAttrNS` just before the converter runs, does not disturb
+    it: the state the harness observes after `setAttrNS(ans, local, p:rest)` on a fresh element is
+    `savePrefix (run st [ans]) value`, and the value's prefix is declared there. -/
+theorem value_prefix_declared_after_setAttrNS (pre : List Str) (ans p rest ns : Str) (hp : 58 ∉ p)
+    (hk : knownNs (run initial (pre ++ [ans])).nsdict p = some ns) :
+    (ns, p) ∈ (savePrefix (run initial (pre ++ [ans])) (p ++ 58 :: rest)).seen :=
+  value_prefix_declared _ (inv_reachable (pre ++ [ans])) p rest ns hp hk
+
 end OdfModel.Props.C14
